@@ -1794,4 +1794,61 @@ example :
     out.batch.refSizes = some [1, 2] ∧ out.batch.uttids = [1, 0] ∧ out.batchFirst = false ∧
     out.hasAlis = true ∧ out.hasUttids = true := by decide
 
+/-! ## `sampler.base_seed` reassigned after construction (`Seeded`: improvement round 4)
+
+The ordering source of a shuffled loader is `src : base_seed → epoch → ordering`; the `Seeded` layer
+runs every `View` operation on the orderings of the seed stored AT THAT MOMENT. -/
+
+/-- **C14_reseed_call_time**: in any script `pre ++ op :: post` (operations of the `View` language and
+assignments `sampler.base_seed = s` in any order, iterators alive or not), operation `op` shows what
+`View.step` shows on the orderings of the seed AS LAST ASSIGNED in `pre` (the constructor's where
+never assigned): nothing derived from an earlier seed - by a pass, a `len()`, a look-up of the very
+same epoch - takes part, nor anything assigned later. -/
+theorem C14_reseed_call_time (src : Nat → Nat → List Nat) (pre post : List SOp) (o : VOp) (z : Seeded) :
+    (Seeded.exec src (pre ++ .v o :: post) z).1[pre.length]?
+      = some (.v o, some (View.step (src (seedAfter z.seed pre)) o (Seeded.exec src pre z).2.view).1) := by
+  rw [Seeded.exec_append]
+  have hl := Seeded.exec_length src pre z
+  rw [List.getElem?_append_right (by omega), hl, Nat.sub_self, ← Seeded.exec_seed]
+  rfl
+
+/-- **C14_reseed_seed_epoch** (identical (seed, epoch) ⇒ identical batches, with the seed a mutable
+attribute): after ANY script `pre` on ANY loader - whatever seeds were stored before, whichever
+epochs were materialised under them, by passes, `len()` or look-ups -, `sampler.base_seed = s;
+loader.epoch = e; for batch in loader` delivers exactly the pass of the loader `⟨cfg', sampler
+configuration, epoch e⟩` on the ordering `src s e`, where the sampler configuration, `lens`, `nb`,
+`B`, `dynamic` are the constructor's and `cfg'.drop` is the drop flag as last assigned: a function of
+the constructor arguments, the drop flag in force and (s, e), of nothing else. -/
+theorem C14_reseed_seed_epoch (src : Nat → Nat → List Nat) (pre : List SOp) (z : Seeded) (s e : Nat) :
+    let z' := (Seeded.exec src pre z).2
+    let l := z'.view.session.loader
+    (Seeded.exec src [.setSeed s, .v (.io (.setEpoch e)), .v (.io .serve)] z').1.getLast?
+        = some (.v (.io .serve),
+            some (.pass (Loader.serve (src s) ⟨l.cfg, ⟨l.sampler.cfg, e⟩⟩).1, z'.view.present)) ∧
+    l.sampler.cfg = z.view.session.loader.sampler.cfg ∧
+    l.cfg = { z.view.session.loader.cfg with drop := l.cfg.drop } := by
+  intro z' l
+  obtain ⟨h1, h2, h3, h4, h5⟩ := Seeded.exec_fixed src pre z
+  refine ⟨rfl, h1, ?_⟩
+  show l.cfg = ⟨_, _, _, _, _⟩
+  have e2 : l.cfg.lens = z.view.session.loader.cfg.lens := h2
+  have e3 : l.cfg.nb = z.view.session.loader.cfg.nb := h3
+  have e4 : l.cfg.B = z.view.session.loader.cfg.B := h4
+  have e5 : l.cfg.dynamic = z.view.session.loader.cfg.dynamic := h5
+  rw [← e2, ← e3, ← e4, ← e5]
+
+/-- `C14_reseed_call_time` / `C14_reseed_seed_epoch` applied: two orderings per seed, epoch 0 served
+under seed 1, the seed reassigned, epoch 0 again: the second pass is seed 2's ordering. -/
+def exSrc : Nat → Nat → List Nat := fun s e => if s = 1 then (if e = 0 then [0, 1, 2] else [2, 1, 0]) else [1, 2, 0]
+def exSeededLoader : Loader := ⟨⟨[3, 3, 3], 1, 2, false, false⟩, ⟨⟨3, 3, 0, 1⟩, 0⟩⟩
+example : Loader.new ⟨[3, 3, 3], 1, 2, false, false⟩ .ignore none 0 = some exSeededLoader := by rfl
+example :
+    (Seeded.exec exSrc [.v (.io .serve), .setSeed 2, .v (.io (.setEpoch 0)), .v (.io .serve)]
+        ⟨View.new exSeededLoader ⟨true, false, true, true, true⟩, 1⟩).1.filterMap
+          (fun p => match p.2 with | some (.pass (.ok (bs, _)), _) => some bs | _ => none)
+      = [[[0, 1], [2]], [[1, 2], [0]]] := by
+  simp [Seeded.exec, Seeded.step, View.step, View.new, Session.step, Session.new, Loader.serve, Loader.setEpoch,
+    EpochSampler.iter, EpochSampler.samples, EpochSampler.islice, EpochSampler.everyNth, exSeededLoader, exSrc]
+  rfl
+
 end PdtVerif.Batching
